@@ -743,6 +743,13 @@ impl World {
                 self.checks = false;
                 return "ok".to_string();
             }
+            ["nextid", n] => {
+                // verification hook (only when the repository under test provides it, see build.rs)
+                return match n.parse::<u32>() {
+                    Ok(n) => set_next_peer_id(&mut self.net, n),
+                    Err(_) => "bad-op".to_string(),
+                };
+            }
             _ => {}
         }
         if self.dead {
@@ -805,6 +812,21 @@ impl World {
         self.last = obs;
         line
     }
+}
+
+#[cfg(net_peer_id_hook)]
+const HAVE_HOOK: bool = true;
+#[cfg(not(net_peer_id_hook))]
+const HAVE_HOOK: bool = false;
+
+#[cfg(net_peer_id_hook)]
+fn set_next_peer_id(net: &mut Net<u32>, n: u32) -> String {
+    net.verif_set_next_peer_id(n);
+    "ok".to_string()
+}
+#[cfg(not(net_peer_id_hook))]
+fn set_next_peer_id(_net: &mut Net<u32>, _n: u32) -> String {
+    "no-hook".to_string()
 }
 
 fn sent_txt(s: &[(u32, Vec<u8>)]) -> String {
@@ -1013,6 +1035,11 @@ impl<'a> Gen<'a> {
         self.remotes.clear();
         self.seen.clear();
         self.line(if server { "new s" } else { "new c" });
+        if HAVE_HOOK && self.rng.chance(1, 3) {
+            // the peer id counter about to wrap
+            let v = *self.rng.pick(&[4294967295u32, 4294967294, 4294967293, 1]);
+            self.line(&format!("nextid {}", v));
+        }
         let n = 2 + self.rng.below(3) as u32;
         self.addrs = (1..=n).collect();
         if self.rng.chance(1, 10) {
@@ -1186,7 +1213,16 @@ impl<'a> Gen<'a> {
                 self.line(&format!("sendcl {} {}", a, to_hex(&d)));
             }
             98 => {
-                self.line("needs_tick");
+                if HAVE_HOOK && self.rng.chance(1, 2) {
+                    // the counter runs into ids that are still live: fresh peers must skip them
+                    let v = match self.pick_pid(|_| true) {
+                        Some(pid) => pid.wrapping_sub(self.rng.below(2) as u32),
+                        None => self.rng.below(4) as u32,
+                    };
+                    self.line(&format!("nextid {}", v));
+                } else {
+                    self.line("needs_tick");
+                }
             }
             // ---- misuse of the API (outside the property's claims; model and code must still agree)
             _ => {
